@@ -310,7 +310,7 @@ func checkDiff(c Case, st *core.Stats) error {
 			}
 		}
 		p := ref.Recognise(c.S)
-		if p.OK && !(within(p.Written) && within(p.Exp) && within(p.Adj)) {
+		if p.OK && !(within(p.Exp) && within(p.Adj) && (p.Written == nil || p.Written.IsInt64() && p.Written.Int64() >= -1<<31 && p.Written.Int64() < 1<<31)) {
 			return nil // beyond apd's package limits: either outcome is acceptable there
 		}
 		a, err := pyref.AskRaw("parse", c.S)
@@ -376,7 +376,10 @@ func checkParse(c Case, st *core.Stats) error {
 	if c.Src != "grammar" {
 		st.NonTrivial(c.Src)
 	}
-	mustAccept := p.OK && within(p.Written) && within(p.Exp) && within(p.Adj)
+	// The statement decides by the value: its adjusted exponent (and, for a well-formed
+	// Decimal, its exponent) within the limits. The written exponent alone says nothing
+	// ("0.5E+100001" is 5E+100000); only one that does not fit 32 bits may be turned away.
+	mustAccept := p.OK && within(p.Exp) && within(p.Adj) && (p.Written == nil || p.Written.IsInt64() && p.Written.Int64() >= -1<<31 && p.Written.Int64() < 1<<31)
 	switch {
 	case !p.OK:
 		st.Class("not-in-grammar")
